@@ -160,7 +160,7 @@ def leaf(job, api, want):
             ctx.prove("no gate on more than two qubits", 0 if bad_arity else 1)
             ctx.prove("every two-qubit gate acts on a coupled pair of %d-%s (offending: %s)" % (n, conn, off[:2]), 0 if off else 1)
             ctx.prove("composition neither adds nor moves a two-qubit gate (skeleton equals the table entry's)",
-                      1 if circmetrics.skeleton(gates) == circmetrics.skeleton(tg) else 0)
+                      1 if circmetrics.skeleton_canon(gates, n) == circmetrics.skeleton_canon(tg, n) else 0)
         if "C04" in want:
             c, d = circmetrics.two_qubit_count(gates), circmetrics.two_qubit_depth(gates, n)
             ctx.prove("two-qubit count %d / depth %d equal the metadata %d / %d of the class (id %d)" % (c, d, ent["cost"], ent["depth"], cls),
@@ -283,6 +283,22 @@ def fc_jobs(tier, seed, signs_quick=("affine", 2), signs_thorough=("affine", 2),
                 B = spec.random_invertible(n, r2) if r2.random() < 0.5 else None
                 jobs.append(dict(family="Fc", n=n, conn=conn, cls=cls, adj=adj, base_layer=base, window=window, B=B, resign=(r2.random() < 0.25),
                                  signs=signs_quick if tier == "quick" else signs_thorough, seed=seed * 13 + cls))
+    return jobs
+
+
+def fc0_jobs(tier, seed, signs=("affine", 1)):
+    """every class of every configuration once: table graph, seeded concrete layer (thorough: one symbolic qubit),
+    seeded basis change - so that every table line goes through composition / cancellation / sign repair"""
+    jobs = []
+    for (n, conn) in coupling_spec.ADVERTISED:
+        for cls in range(NCLASSES[n]):
+            r2 = random.Random(seed * 7919 + cls * 131 + n * 17 + len(conn))
+            adj = tables.entries(n, conn)[cls]["adj"]
+            base = [r2.randrange(6) for _ in range(n)]
+            window = [r2.randrange(n)] if (tier == "thorough" and n <= 5) else []
+            B = spec.random_invertible(n, r2) if r2.random() < 0.5 else None
+            jobs.append(dict(family="Fc", n=n, conn=conn, cls=cls, adj=adj, base_layer=base, window=window, B=B, resign=False,
+                             signs=signs, seed=seed * 13 + cls))
     return jobs
 
 
